@@ -39,9 +39,10 @@ Theorem C12_trace_step_transparent : forall s inp a' inp' ev,
 Proof. exact trace_transparent. Qed.
 Print Assumptions C12_trace_step_transparent.
 
-(* ... and whole runs: same events (system calls), same input remainder, same final state, same exit status *)
+(* ... and whole runs, with or without a cycle limit mc: same events (system calls), same input remainder, same final
+   state, same exit status *)
 Theorem C12_trace_is_transparent : forall n mc s inp evs, wf s ->
-  defined_run (Isa.run n (arch_of s) inp evs) -> mc = 0 -> s_running s = true ->
+  defined_run (Isa.run n (arch_of s) inp evs) -> s_running s = true ->
   run_traced n mc s inp evs = SimModel.run n mc s inp evs.
 Proof. exact run_trace_transparent. Qed.
 Print Assumptions C12_trace_is_transparent.
